@@ -1,11 +1,12 @@
 import AdeuModel.Lemmas.Extract
 import AdeuModel.Lemmas.Mapper
+import AdeuModel.Lemmas.ExtractDoc
 /-
 C04 — the text projection is complete, ordered and correctly annotated.
 Statements about `Adeu.Doc.extractText`, the model of `extract_text_from_stream`.
 -/
 namespace Adeu.Props.C04
-open Adeu Adeu.Doc
+open Adeu Adeu.Doc Adeu.Markup
 
 /-- Accepted view of a paragraph = the formatted segment of every run that is not inside a
 deletion, each exactly once and in document order; no annotation, no deleted text, nothing else. -/
@@ -28,6 +29,58 @@ theorem C04_marker_no_newline (r : Run) (h : runText r ≠ [])
   · unfold runMarkers; by_cases hb : onOffTrue r.b <;> by_cases hi : onOffTrue r.i <;> simp [hb, hi]
   · unfold runMarkers; by_cases hb : onOffTrue r.b <;> by_cases hi : onOffTrue r.i <;> simp [hb, hi]
 
+
+/-! ### the raw view: annotation, flat balanced delimiters, reading it with everything accepted -/
+
+/-- Balanced and never nested: the raw view of a paragraph is the rendering of a *flat* list of
+segments (plain text, `{--…--}`, `{++…++}`, `{==…==}`, `{>>…<<}`), each closed before the next opens. -/
+theorem C04_raw_is_flat_markup (cm : CMap) (p : Para) : paraText false cm p = render (rawSegs cm p) :=
+  paraText_raw_render cm p
+
+/-- Annotation: every character of every run appears exactly once, in document order, in the kind of
+block that the revision marks and comment ranges open at its run call for (deleted, else inserted, else
+commented, else bare); metadata blocks carry no text character of the document. -/
+theorem C04_raw_annotation (cm : CMap) (p : Para) : tagsOf (rawSegs cm p) = taggedSpec [] [] [] (items p) :=
+  rawSegs_tagged cm p
+
+/-- Identifier listing: the metadata blocks of the raw view are, in order, the renderings of groups of
+snapshots (empty renderings leave no block) … -/
+theorem C04_meta_blocks_are_rendered_groups (cm : CMap) (p : Para) :
+    notesOf (rawSegs cm p) = blocksOf cm (metaGroups cm p) :=
+  rawSegs_notes cm p
+
+/-- … and the groups hold, taken together and in document order, exactly one snapshot of the open
+insertions, deletions and comment ranges per run that carries text: a tracked change or a comment range
+gets its identifier listed only through a text-carrying run it encloses, and every such run lists all of
+its open marks (the renderer `metaBlock` writes `[Chg:id]` for every insertion / deletion of a snapshot and
+the thread of every comment id of it, each signature once per block). -/
+theorem C04_listed_marks_are_those_open_at_text (cm : CMap) (p : Para) :
+    (metaGroups cm p).flatten = snapSpec [] [] [] (items p) :=
+  metaGroups_flatten cm p
+
+/-- Resolving every annotation of the raw view as 'accept' gives the accepted view, character for character. -/
+theorem C04_accept_raw_eq_clean (cm : CMap) (p : Para) : acceptView (rawSegs cm p) = paraText true cm p :=
+  rawSegs_accept cm p
+
+/-- The same through the CriticMarkup reader on the *string* the client receives (texts, authors and
+comment texts without braces). -/
+theorem C04_paragraph_read_accepted (cm : CMap) (p : Para) (hb : braceFreeB (rawSegs cm p) = true) :
+    (parse (paraText false cm p)).map acceptView = some (paraText true cm p) :=
+  (para_reads cm p hb).parse
+
+/-- Whole documents: headers, body with nested and merged tables, footers.  `domDoc` = brace-free texts
+and no container (table, story) that is empty in the accepted view but not in the raw view - the domain
+of the open finding F-deleted-only-container, see the counterexample below. -/
+theorem C04_document_read_accepted_partial (d : Document) (h : domDoc d = true) :
+    (parse (extractText false d)).map acceptView = some (extractText true d) :=
+  (doc_reads d h).parse
+
+theorem C04_document_flat_balanced_partial (d : Document) (h : domDoc d = true) :
+    ∃ segs : List Seg, extractText false d = render segs ∧ BraceFree segs ∧
+      parse (extractText false d) = some (normAcc [] segs) := by
+  obtain ⟨segs, r, _, b⟩ := doc_reads d h
+  exact ⟨segs, r, b, by rw [r, parse_render segs b]⟩
+
 /-! Non-vacuity: a paragraph with a deletion, an insertion and a bold run with a line break. -/
 def samplePara : Para :=
   { style := none, ppr := [], nodes :=
@@ -39,5 +92,56 @@ def samplePara : Para :=
 example : paraText true [] samplePara = "keep new **a**\n**b**".toList := by decide
 example : paraText false [] samplePara =
     "keep {--old --}{++new ++}{>>[Chg:1] A\n[Chg:2] A<<}**a**\n**b**".toList := by decide
+
+example : rawSegs [] samplePara =
+    [.plain "keep ".toList, .del "old ".toList, .ins "new ".toList, .note "[Chg:1] A\n[Chg:2] A".toList,
+     .plain "**a**\n**b**".toList] := by decide
+example : braceFreeB (rawSegs [] samplePara) = true := by decide
+example : metaGroups [] samplePara =
+    [[⟨[], [], []⟩], [⟨[], [("1".toList, some "A".toList)], []⟩, ⟨[("2".toList, some "A".toList)], [], []⟩],
+     [⟨[], [], []⟩]] := by decide
+
+def sampleDoc : Document :=
+  { headers := [], footers := [], titlePg := false, evenOdd := false, comments := [], commentsEx := [], hasExtended := false,
+    body := [.para samplePara,
+      .table [] [] [.mk [] [.mk [] 1 .none [.para samplePara], .mk [] 1 .none [.para { style := none, ppr := [], nodes := [] }]]]] }
+
+/-- a table whose only text is tracked-deleted: shown in the raw view, dropped from the accepted view -/
+def deletedOnlyDoc : Document :=
+  { sampleDoc with body := [.para samplePara,
+      .table [] [] [.mk [] [.mk [] 1 .none [.para { style := none, ppr := [], nodes :=
+        [.del ⟨"3".toList, some "A".toList, none⟩ [{ b := none, i := none, rest := [], ch := [.dt "gone".toList] }]] }]]]] }
+
+/-- non-vacuity of the document-level theorem: a document with a redlined paragraph and a table meets `domDoc` -/
+theorem sampleDoc_in_domain : domDoc sampleDoc = true := by
+  simp only [domDoc, docParts, sampleDoc, storyOf, List.find?, domBlocks, domRows, domCells, tableText, rowsCellTexts,
+    cellsTexts, blocksText, containerText, List.map, List.all, List.nil_append, List.append_nil, Bool.false_eq_true, ↓reduceIte]
+  decide +kernel
+
+example : (parse (extractText false sampleDoc)).map acceptView = some (extractText true sampleDoc) :=
+  C04_document_read_accepted_partial sampleDoc sampleDoc_in_domain
+
+theorem deletedOnlyDoc_texts :
+    extractText false deletedOnlyDoc =
+      "keep {--old --}{++new ++}{>>[Chg:1] A\n[Chg:2] A<<}**a**\n**b**\n\n{--gone--}{>>[Chg:3] A<<}".toList ∧
+    extractText true deletedOnlyDoc = "keep new **a**\n**b**".toList := by
+  simp only [extractText, docParts, deletedOnlyDoc, sampleDoc, storyOf, List.find?, tableText, rowsCellTexts,
+    cellsTexts, blocksText, containerText, List.map, List.filter, List.nil_append, List.append_nil, Bool.false_eq_true, ↓reduceIte]
+  decide +kernel
+
+/-- The hypothesis of the document-level theorem is needed: for a table whose only text is tracked-deleted
+the raw view read with everything accepted keeps the separator of the (now empty) table, the accepted
+view drops the table.  Same witness as the open finding F-deleted-only-container, replayed on the
+implementation by this check. -/
+theorem C04_deleted_only_container_counterexample :
+    domDoc deletedOnlyDoc = false ∧
+    (parse (extractText false deletedOnlyDoc)).map acceptView ≠ some (extractText true deletedOnlyDoc) := by
+  refine ⟨?_, ?_⟩
+  · simp only [domDoc, docParts, deletedOnlyDoc, sampleDoc, storyOf, List.find?, domBlocks, domRows, domCells, tableText,
+      rowsCellTexts, cellsTexts, blocksText, containerText, List.map, List.all, List.nil_append, List.append_nil,
+      Bool.false_eq_true, ↓reduceIte]
+    decide +kernel
+  · rw [deletedOnlyDoc_texts.1, deletedOnlyDoc_texts.2]
+    decide +kernel
 
 end Adeu.Props.C04
